@@ -17,7 +17,8 @@ RULE = ('programs = LUAGEN model trees laid out one statement per line (blocks b
         '(closing tokens already closed, short-if opens no block); (d) no output line outside long strings/comments '
         'ends in a blank, no two consecutive blank lines, no blank or whitespace-only line at the end. Non-trivial = '
         'nesting depth >= 2 and at least one blank-line run or comment line; distinct by (source, width).'
-        " Layouts include runs of 9-14 comment lines and multi-line block comments on their own lines (with the layout's LF or CRLF line ends); only lines inside multi-line STRING literals are exempt from the no-trailing-whitespace clause; sources without multi-line strings are also formatted with the other line-end style (LF <-> CRLF) and must give the same output.")
+        " Layouts include runs of 9-14 comment lines and multi-line block comments on their own lines (with the layout's LF or CRLF line ends); only lines inside multi-line STRING literals are exempt from the no-trailing-whitespace clause; sources without multi-line strings are also formatted with the other line-end style (LF <-> CRLF) and must give the same output."
+        ' Part "deep": 17-70 nested blocks of every kind with table/call brackets at the bottom, indent widths 1-8 (indentation up to 560 columns).')
 ASSUMPTIONS = ['the indentation of comment-only lines is not asserted by (c) (the property constrains lines beginning '
                'with a code token); the inner spacing of a line is never changed by the re-indent transform',
                'lexical rules are represented by vlib/reflex.py']
